@@ -17,6 +17,28 @@ MODEL_ERRS = {"IndexError", "KeyError", "ValueError", "NotImplementedError", "Ty
 KNOWN_SIG = "properties-cache-poisoned"
 
 
+LIMIT = 20        # seconds of wall time one history may take on the real implementation
+
+
+class HistoryTimeout(BaseException):
+    """not an Exception: must not be swallowed by the views' `except Exception`"""
+
+
+def _on_alarm(signum, frame):
+    raise HistoryTimeout()
+
+
+def arm_timeout():
+    import signal
+    signal.signal(signal.SIGALRM, _on_alarm)
+    signal.setitimer(signal.ITIMER_REAL, LIMIT)
+
+
+def disarm_timeout():
+    import signal
+    signal.setitimer(signal.ITIMER_REAL, 0)
+
+
 def family(name):
     if name in vmlib.CONST_OPS:
         return "CONST"
